@@ -98,6 +98,17 @@ def run_mapping(case, ctx):
     cls = classes()[case['cls']]
     base = codec.dec(case['d'])
     d = cls(base)
+    if case.get('churn') and base and case['op'] != 'add_nested':
+        # the keys were looked at before, then the mapping was edited in place without changing its size: whatever was remembered is stale
+        d.keys(); dir(d)
+        k0 = list(base)[0]
+        v0 = d[k0]
+        del d[k0]
+        if case['churn'] == 'reorder':
+            d[k0] = v0
+        else:
+            d[k0 + '9'] = v0
+        base = dict(dict.items(d))
     s0 = snap(dict(d))
     from .C15 import idsnap as _idsnap, idsnap_same as _idsnap_same
     s0deep = _idsnap(d)
@@ -350,6 +361,8 @@ def gen_map(rng):
             sel = sel + [k0 + '.b'] if rng.random() < 0.6 else [k0 + '.b']
         case['sel'] = sel
         case['single'] = len(sel) == 1 and rng.random() < 0.5
+        if rng.random() < 0.2:
+            case['churn'] = rng.choice(['reorder', 'rename'])
         if op == 'and' and rng.random() < 0.3:
             case['view'] = rng.choice(['keys', 'values', 'tuple'])
         if op in ('getlist', 'gettuple') and len(sel) == 1 and op == 'gettuple':
